@@ -1,11 +1,12 @@
 (** C02, acceptance: exactly WHEN the two marshallers succeed.
-    For a well-typed value, [marshal_t] returns Ok iff the leaves are acceptable ([leaves_ok]) and
-    every array / dict body is within 64 MiB ([arrays_within], measured as the code measures it:
-    from the first element after the padding that follows the length field, at the position where
-    the value is written). [marshal_p] returns Ok iff additionally the signature of every variant
-    validates ([leaves_ok_p]) and the nesting counter stays below 64 ([nest_ok]).
-    Neither API checks string lengths against 2^32 or the number of descriptors ('as u32'
-    truncates silently), so these are NOT conditions of success.
+    For a well-typed value, [marshal_t] returns Ok iff the leaves are acceptable ([leaves_ok]), the printed signature
+    of every variant validates ([variant_sigs_ok]; marshal_as_variant checks it since fix ef1b771, the Param API's
+    marshal_signature always did) and every array / dict body is within 64 MiB ([arrays_within], measured as the code
+    measures it: from the first element after the padding that follows the length field, at the position where the
+    value is written). [marshal_p] returns Ok iff additionally the nesting counter stays below 64 ([nest_ok]) - the
+    only difference left between the two APIs on well-typed values.
+    Neither API checks string lengths against 2^32 or the number of descriptors ('as u32' truncates silently), so
+    these are NOT conditions of success.
     Model: Wire/Marshal.v. *)
 From RB Require Import Base.Prelude Sig.Types Sig.Parser Sig.ParserProofs Sig.Validator Sig.ValidatorProofs
   Wire.Bytes Wire.Align Wire.Text Wire.Value Wire.SpecEnc Wire.Marshal Wire.Relabel Wire.MarshalProofs
@@ -171,7 +172,7 @@ Qed.
 
 Lemma base_list_conds be b vs : is_text b = false -> b <> BUnixFd ->
   Forall (fun x => wt x (TBase b) = true) vs ->
-  forallb leaves_ok vs = true /\ forall pos, cond_list be (arrays_within be) pos vs = true.
+  forallb leaves_ok_p vs = true /\ forall pos, cond_list be (arrays_within be) pos vs = true.
 Proof.
   intros Ht Hnfd. induction 1 as [|x r Hx _ [IH1 IH2]]; [split; reflexivity|].
   destruct (wt_base_inv _ _ Hx) as [(k & -> & _ & Hk)|(s & -> & Hts)]; [|congruence]. split.
@@ -205,15 +206,18 @@ Lemma len_pad_to a buf : 0 < a -> len (pad_to a buf) = len buf + padlen a (len b
 Proof. intros Ha. rewrite pad_to_spec by exact Ha. now rewrite len_app, len_zeros. Qed.
 
 (** ** the typed API *)
-Definition cond_t (be : bool) (pos : N) (v : val) : bool := leaves_ok v && arrays_within be pos v.
+(* since fix ef1b771 marshal_as_variant validates the signature it writes, like the Param API: the leaf condition of
+   both APIs is [leaves_ok_p] *)
+Definition cond_t (be : bool) (pos : N) (v : val) : bool := leaves_ok_p v && arrays_within be pos v.
 
 Theorem marshal_t_decides be : forall v, typed v -> decides (marshal_t be) be (cond_t be) v.
 Proof.
   induction v as [b k|b s|t vs IH|vs IH|kb vt kvs IH|t x IH] using val_ind'; intros [T Hw] c; unfold cond_t.
   - destruct (wt_base_ty _ _ _ Hw) as (_ & Ht & _). cbn [arrays_within marshal_t]. rewrite andb_true_r.
+    replace (leaves_ok_p (VBase b k)) with (leaves_ok (VBase b k)) by reflexivity.
     exact (marshal_base_decides be b k c Ht).
   - destruct (wt_text_ty _ _ _ Hw) as (_ & Ht). cbn [arrays_within]. rewrite andb_true_r.
-    destruct b; try discriminate Ht; cbn [leaves_ok marshal_t andb].
+    destruct b; try discriminate Ht; cbn [leaves_ok_p marshal_t andb].
     + destruct (has_nul s); cbn [negb]; [reflexivity|]. eexists. split; [reflexivity|]. cbn [mbuf].
       rewrite len_write_string, len_pad_to, len_spec_string by (try lia; discriminate). lia.
     + destruct (is_ok (validate_signature s)); [|reflexivity]. eexists. split; [reflexivity|]. cbn [mbuf spec_enc].
@@ -225,7 +229,7 @@ Proof.
     pose proof (wt_array_inv _ _ _ Hw) as Hel.
     assert (Hdec : Forall (decides (marshal_t be) be (cond_t be)) vs).
     { apply Forall_forall. intros x Hin. rewrite Forall_forall in IH, Hel. apply IH; [exact Hin|]. exists t. now apply Hel. }
-    rewrite marshal_t_array. cbv zeta. cbn [leaves_ok]. rewrite arrays_within_array, spec_enc_array'.
+    rewrite marshal_t_array. cbv zeta. cbn [leaves_ok_p]. rewrite arrays_within_array, spec_enc_array'.
     set (pos := len (mbuf c)). set (p1 := padlen 4 pos). set (p2 := padlen (align t) (pos + p1 + 4)).
     set (body := spec_enc_list be (pos + p1 + 4 + p2) vs).
     assert (Lb1 : len (pad_to 4 (mbuf c)) = pos + p1) by (apply len_pad_to; lia).
@@ -254,7 +258,7 @@ Proof.
         change (0 <=? MAX_ARRAY) with true. cbn [andb]. eexists. split; [reflexivity|]. cbn [mbuf]. fold b3.
         rewrite Lb3, !len_app, !len_zeros, len_enc4, len_nil. lia. }
       set (vs := x0 :: vs0) in *.
-      destruct (forallb leaves_ok vs); cbn [andb] in Hs |- *.
+      destruct (forallb leaves_ok_p vs); cbn [andb] in Hs |- *.
       2:{ destruct (marshal_seq (marshal_t be) vs _) as [c1 ok]. cbn [snd] in Hs. subst ok. reflexivity. }
       destruct (cond_list be (arrays_within be) (pos + p1 + 4 + p2) vs).
       2:{ rewrite andb_false_r. destruct (marshal_seq (marshal_t be) vs _) as [c1 ok]. cbn [snd] in Hs. subst ok. reflexivity. }
@@ -269,19 +273,19 @@ Proof.
     pose proof (wt_struct_inv _ _ Hw) as Hel.
     assert (Hdec : Forall (decides (marshal_t be) be (cond_t be)) vs).
     { apply Forall_forall. intros x Hin. rewrite Forall_forall in IH, Hel. apply IH; [exact Hin|]. now apply Hel. }
-    rewrite marshal_t_struct. cbn [leaves_ok]. rewrite arrays_within_struct, spec_enc_struct.
+    rewrite marshal_t_struct. cbn [leaves_ok_p]. rewrite arrays_within_struct, spec_enc_struct.
     set (pos := len (mbuf c)). set (p := padlen 8 pos).
     pose proof (seq_decides _ be _ vs Hdec {| mbuf := pad_to 8 (mbuf c); mfds := mfds c |}) as Hs. cbn [mbuf] in Hs.
     rewrite len_pad_to in Hs by lia. fold pos in Hs. fold p in Hs.
     unfold cond_t in Hs. rewrite cond_list_and in Hs.
-    destruct (forallb leaves_ok vs && cond_list be (arrays_within be) (pos + p) vs); [|exact Hs].
+    destruct (forallb leaves_ok_p vs && cond_list be (arrays_within be) (pos + p) vs); [|exact Hs].
     destruct Hs as (c1 & Es & L1). exists c1. split; [exact Es|]. rewrite L1, len_app, len_zeros. lia.
   - (* dict *)
     pose proof (wt_dict_inv _ _ _ _ Hw) as Hel.
     assert (Hdec : Forall (fun kv => decides (marshal_t be) be (cond_t be) (fst kv) /\ decides (marshal_t be) be (cond_t be) (snd kv)) kvs).
     { apply Forall_forall. intros kv Hin. rewrite Forall_forall in IH, Hel. destruct (IH kv Hin) as [IHa IHb].
       destruct (Hel kv Hin) as [Hwa Hwb]. split; [apply IHa; now exists (TBase kb)|apply IHb; now exists vt]. }
-    rewrite marshal_t_dict. cbv zeta. cbn [leaves_ok]. rewrite arrays_within_dict, spec_enc_dict'.
+    rewrite marshal_t_dict. cbv zeta. cbn [leaves_ok_p]. rewrite arrays_within_dict, spec_enc_dict'.
     set (pos := len (mbuf c)). set (p1 := padlen 4 pos). set (p2 := padlen 8 (pos + p1 + 4)).
     set (body := spec_enc_entries be (pos + p1 + 4 + p2) kvs).
     assert (Lb1 : len (pad_to 4 (mbuf c)) = pos + p1) by (apply len_pad_to; lia).
@@ -295,7 +299,7 @@ Proof.
       change (0 <=? MAX_ARRAY) with true. cbn [andb]. eexists. split; [reflexivity|]. cbn [mbuf]. fold b3.
       rewrite Lb3, !len_app, !len_zeros, len_enc4, len_nil. lia. }
     set (kvs := kv0 :: kvs0) in *.
-    destruct (forallb (fun kv => leaves_ok (fst kv) && leaves_ok (snd kv)) kvs); cbn [andb] in Hs |- *.
+    destruct (forallb (fun kv => leaves_ok_p (fst kv) && leaves_ok_p (snd kv)) kvs); cbn [andb] in Hs |- *.
     2:{ destruct (marshal_entries (marshal_t be) kvs _) as [c1 ok]. cbn [snd] in Hs. subst ok. reflexivity. }
     destruct (cond_entries be (arrays_within be) (pos + p1 + 4 + p2) kvs).
     2:{ rewrite andb_false_r. destruct (marshal_entries (marshal_t be) kvs _) as [c1 ok]. cbn [snd] in Hs. subst ok. reflexivity. }
@@ -308,14 +312,15 @@ Proof.
       rewrite L1, !len_app, !len_zeros, len_enc4. lia.
   - (* variant *)
     pose proof (wt_variant_inv _ _ _ Hw) as Hwx.
-    cbn [marshal_t leaves_ok arrays_within]. cbv zeta. rewrite spec_enc_variant, len_sig_bytes.
-    destruct (N.ltb_spec 255 (len (to_str t))) as [Hgt|Hle].
-    + destruct (N.leb_spec (len (to_str t)) 255) as [|_]; [lia|]. reflexivity.
-    + destruct (N.leb_spec (len (to_str t)) 255) as [_|]; [|lia]. cbn [andb].
-      specialize (IH (ex_intro _ t Hwx) {| mbuf := write_signature (to_str t) (mbuf c); mfds := mfds c |}).
-      cbn [mbuf] in IH. rewrite len_write_signature in IH. unfold cond_t in IH.
-      destruct (leaves_ok x && arrays_within be (len (mbuf c) + (len (to_str t) + 2)) x); [|exact IH].
-      destruct IH as (c1 & E1 & L1). exists c1. split; [exact E1|]. rewrite L1, len_app, len_sig_bytes. lia.
+    cbn [marshal_t leaves_ok_p arrays_within]. cbv zeta. rewrite spec_enc_variant, len_sig_bytes.
+    destruct (is_ok (validate_signature (to_str t))) eqn:Ev; cbn [andb].
+    2:{ destruct (255 <? len (to_str t)); reflexivity. }
+    pose proof (validate_signature_len _ Ev) as Hle.
+    destruct (N.ltb_spec 255 (len (to_str t))) as [Hgt|_]; [lia|].
+    specialize (IH (ex_intro _ t Hwx) {| mbuf := write_signature (to_str t) (mbuf c); mfds := mfds c |}).
+    cbn [mbuf] in IH. rewrite len_write_signature in IH. unfold cond_t in IH.
+    destruct (leaves_ok_p x && arrays_within be (len (mbuf c) + (len (to_str t) + 2)) x); [|exact IH].
+    destruct IH as (c1 & E1 & L1). exists c1. split; [exact E1|]. rewrite L1, len_app, len_sig_bytes. lia.
 Qed.
 
 (** ** the dynamic (Param) API *)
@@ -446,18 +451,6 @@ Proof.
   - rewrite H. split; discriminate.
 Qed.
 
-(* typed API: success exactly when the leaves are acceptable and every array / dict body, as laid
-   out from the position where the value is written, is within 64 MiB *)
-Theorem marshal_t_exactly be v c : typed v ->
-  (snd (marshal_t be v c) = true <-> leaves_ok v = true /\ arrays_within be (len (mbuf c)) v = true).
-Proof.
-  intros Ht. rewrite (decides_iff _ be _ v c (marshal_t_decides be v Ht)). unfold cond_t. apply andb_true_iff.
-Qed.
-
-Theorem marshal_t_accepts be v c : typed v -> leaves_ok v = true -> arrays_within be (len (mbuf c)) v = true ->
-  snd (marshal_t be v c) = true.
-Proof. intros Ht H1 H2. apply (marshal_t_exactly be v c Ht). auto. Qed.
-
 (* dynamic API: additionally every variant's signature validates and the depth counter stays below 64 *)
 Theorem marshal_p_exactly_p be depth v c : typed v ->
   (snd (marshal_p be depth v c) = true
@@ -507,6 +500,37 @@ Theorem marshal_p_accepts be depth v c : typed v -> leaves_ok v = true -> varian
   snd (marshal_p be depth v c) = true.
 Proof. intros Ht H1 H2 H3 H4. apply (marshal_p_exactly be depth v c Ht). auto. Qed.
 
+(* typed API: success exactly when the leaves are acceptable, every variant's printed signature validates (since fix
+   ef1b771) and every array / dict body, as laid out from the position where the value is written, is within 64 MiB *)
+Theorem marshal_t_exactly_p be v c : typed v ->
+  (snd (marshal_t be v c) = true <-> leaves_ok_p v = true /\ arrays_within be (len (mbuf c)) v = true).
+Proof.
+  intros Ht. rewrite (decides_iff _ be _ v c (marshal_t_decides be v Ht)). unfold cond_t. apply andb_true_iff.
+Qed.
+
+Theorem marshal_t_exactly be v c : typed v ->
+  (snd (marshal_t be v c) = true
+   <-> leaves_ok v = true /\ variant_sigs_ok v = true /\ arrays_within be (len (mbuf c)) v = true).
+Proof. intros Ht. rewrite (marshal_t_exactly_p be v c Ht), leaves_ok_p_split, andb_true_iff. tauto. Qed.
+
+Theorem marshal_t_accepts be v c : typed v -> leaves_ok v = true -> variant_sigs_ok v = true ->
+  arrays_within be (len (mbuf c)) v = true -> snd (marshal_t be v c) = true.
+Proof. intros Ht H1 H2 H3. apply (marshal_t_exactly be v c Ht). auto. Qed.
+
+(* refusal, the contrapositive: an unacceptable leaf or a variant signature that does not validate, anywhere *)
+Theorem marshal_t_refuses_any be v c : typed v -> (leaves_ok v = false \/ variant_sigs_ok v = false) ->
+  snd (marshal_t be v c) = false.
+Proof.
+  intros Ht H. destruct (snd (marshal_t be v c)) eqn:E; [|reflexivity].
+  apply (marshal_t_exactly be v c Ht) in E. destruct E as (H1 & H2 & _). destruct H as [H|H]; congruence.
+Qed.
+Theorem marshal_p_refuses_any be d v c : typed v -> (leaves_ok v = false \/ variant_sigs_ok v = false) ->
+  snd (marshal_p be d v c) = false.
+Proof.
+  intros Ht H. destruct (snd (marshal_p be d v c)) eqn:E; [|reflexivity].
+  apply (marshal_p_exactly be d v c Ht) in E. destruct E as (H1 & H2 & _). destruct H as [H|H]; congruence.
+Qed.
+
 (* a valid single complete type prints to a valid signature, so [types_ok] is enough for the variants *)
 Lemma type_ok_sig_valid t : type_ok t = true -> is_ok (validate_signature (to_str t)) = true.
 Proof.
@@ -547,9 +571,14 @@ Proof.
   - rewrite H in D. discriminate.
 Qed.
 
-(* the two APIs accept the same values except for what only the Param API checks *)
+(* the two APIs accept the same values except for the nesting limit, which only the Param API counts *)
 Theorem accept_t_of_p be depth v c : typed v -> snd (marshal_p be depth v c) = true -> snd (marshal_t be v c) = true.
 Proof.
-  intros Ht H. apply (marshal_p_exactly be depth v c Ht) in H. destruct H as (H1 & _ & _ & H4).
+  intros Ht H. apply (marshal_p_exactly be depth v c Ht) in H. destruct H as (H1 & H2 & _ & H4).
   now apply marshal_t_accepts.
+Qed.
+Theorem accept_p_of_t be depth v c : typed v -> nest_ok depth v = true -> snd (marshal_t be v c) = true ->
+  snd (marshal_p be depth v c) = true.
+Proof.
+  intros Ht Hn H. apply (marshal_t_exactly be v c Ht) in H. destruct H as (H1 & H2 & H3). now apply marshal_p_accepts.
 Qed.
